@@ -1056,7 +1056,7 @@ def list_packages_bounded(run):
 
 
 @harness(['C07'], 'supp.project.Project.get_module / norm_package[small trees]',
-         bounded='all trees with 3 source roots, each holding for the name `m` one of {nothing, m.py, package m/, extension m.<so>}; 4 search paths that list a directory twice; '
+         bounded='all trees with 3 source roots, each holding for the name `m` one of {nothing, m.py, package m/, extension m.<so>, m.py next to m.<so>}; 4 search paths that list a directory twice; '
                  'and relative specifiers of level 1..4 from files at depth 0..3 of a package chain (every marked/unmarked pattern), asked '
                  'in every order on one Project')
 def resolution_small_trees(run):
@@ -1072,7 +1072,7 @@ def resolution_small_trees(run):
 
     def go(path):
         ext = importlib.machinery.EXTENSION_SUFFIXES[0]
-        kinds = ('none', 'module', 'package', 'extension')
+        kinds = ('none', 'module', 'package', 'extension', 'module-and-extension')
         top = tempfile.mkdtemp(prefix='supp-c07-')
         try:
             n = 0
@@ -1090,6 +1090,10 @@ def resolution_small_trees(run):
                         os.makedirs(os.path.join(r, 'm'))
                         open(os.path.join(r, 'm', '__init__.py'), 'w').close()
                     elif k == 'extension':
+                        open(os.path.join(r, 'm' + ext), 'w').close()
+                    elif k == 'module-and-extension':
+                        # one directory holding m.py next to its compiled form: the import system tries the extension first
+                        open(os.path.join(r, 'm.py'), 'w').close()
                         open(os.path.join(r, 'm' + ext), 'w').close()
                 spec = importlib.machinery.PathFinder.find_spec('m', roots)
                 want = spec.origin if spec else None
